@@ -9,7 +9,7 @@ if s.count(old) < 1:
 open(p, 'w').write(s.replace(old, new, 1))
 try:
     r = subprocess.run(['/verif/check', pid], cwd='/verif', capture_output=True, text=True)
-    lines = [l for l in r.stdout.splitlines() if l.startswith(('FINDING', 'VIOLATION', 'TOOL', 'KNOWN'))]
+    lines = [l for l in r.stdout.splitlines() if l.startswith(('FINDING', 'TOOL'))]
     print('exit', r.returncode)
     print('\n'.join(l[:400] for l in lines[:12]))
     if r.returncode not in (0, 1):
